@@ -212,10 +212,10 @@ func cmdCheck(prop, tier string) int {
 		}
 		obls = append(obls, o)
 	}
-	timeout := 10
+	timeout := 20
 	thorough := tier == "thorough"
 	if thorough {
-		timeout = 60
+		timeout = 120
 	}
 	runObligations(p, obls, timeout, thorough)
 	// every lemma that was available as an axiom in some query must itself be proved in this run
